@@ -1381,6 +1381,23 @@ def mini_exec(fn: ast.FunctionDef, args: Dict[str, object], budget: int = 2000, 
             raise _PathEval.Unknown(f"name {e.id}")
         if isinstance(e, ast.Constant):
             return e.value
+        if isinstance(e, ast.Compare) and len(e.ops) > 1:
+            # a chain `a < b <= c`: pairwise, left to right, each operand evaluated once, stopping at the first false link
+            l = ev(e.left)
+            for op_, c_ in zip(e.ops, e.comparators):
+                r = ev(c_)
+                f_ = {ast.Eq: lambda a, b: a == b, ast.NotEq: lambda a, b: a != b, ast.In: lambda a, b: a in b, ast.NotIn: lambda a, b: a not in b,
+                      ast.Lt: lambda a, b: a < b, ast.LtE: lambda a, b: a <= b, ast.Gt: lambda a, b: a > b, ast.GtE: lambda a, b: a >= b,
+                      ast.Is: lambda a, b: a is b, ast.IsNot: lambda a, b: a is not b}.get(type(op_))
+                if f_ is None:
+                    raise _PathEval.Unknown("comparison")
+                try:
+                    if not f_(l, r):
+                        return False
+                except TypeError:
+                    raise _PathEval.Unknown("comparison of different kinds")
+                l = r
+            return True
         if isinstance(e, ast.Compare) and len(e.ops) == 1:
             l, r = ev(e.left), ev(e.comparators[0])
             op = type(e.ops[0])
